@@ -589,6 +589,13 @@ func TestVerif_C19(t *testing.T) {
 			c19Report(w, cs, r)
 		}
 		opts := vx.Opts{Serial: true, Crumb: true}
+		// completed-bound bookkeeping for the evidence
+		partDone := func(part string) {
+			// (shards overwrite each other's notes, so only the negative is recorded)
+			if !c.Replaying() && c.Expired() {
+				c.Note("part_"+part+"_cut_by_deadline_in_some_shard", true)
+			}
+		}
 
 		vx.Enumerate(c, "k1", opts, func(yield func(c19Case) bool) {
 			for _, sc := range all {
@@ -604,6 +611,7 @@ func TestVerif_C19(t *testing.T) {
 				}
 			}
 		}, check)
+		partDone("k1")
 		vx.Enumerate(c, "dead", opts, func(yield func(c19Case) bool) {
 			for _, sc := range small {
 				for at := 0; at < nOf[sc]+3; at++ {
@@ -613,6 +621,7 @@ func TestVerif_C19(t *testing.T) {
 				}
 			}
 		}, check)
+		partDone("dead")
 		// exactly k deviations at increasing indices
 		multi := func(part string, k int, scs []c19Scn) {
 			vx.Enumerate(c, part, opts, func(yield func(c19Case) bool) {
@@ -637,6 +646,7 @@ func TestVerif_C19(t *testing.T) {
 					}
 				}
 			}, check)
+			partDone(part)
 		}
 		multi("k2-small", 2, small)
 		if kAll >= 2 {
